@@ -446,6 +446,8 @@ compute_image_info (pixman_image_t *image)
 	if (image->bits.width == 1	&&
 	    image->bits.height == 1	&&
 	    image->common.repeat != PIXMAN_REPEAT_NONE &&
+	    image->common.filter != PIXMAN_FILTER_CONVOLUTION &&
+	    image->common.filter != PIXMAN_FILTER_SEPARABLE_CONVOLUTION &&
 	    !PIXMAN_FORMAT_IS_WIDE (image->bits.format))
 	{
 	    code = PIXMAN_solid;
